@@ -52,6 +52,10 @@ def jobs(tier):
             # the signal may land inside urcu_bp_before_fork / after_fork_parent of a thread that is not registered yet
             J.append(Job(b, "sig", "1,0,0,1", dict(p1, target=2, main_registered=0, forkh=1), env, workers=8))
             J.append(Job(b, "sig", "1,0,0,1", dict(p1, target=2, main_registered=1, forkh=1), env, workers=8))
+            # ... and pending across a real fork(), delivered when the child / the parent restores the mask
+            for follow in (0, 1):
+                for mr in (0, 1):
+                    J.append(Job(b, "sig_fork", "1,0,0,2" if mr == 0 else "1,0,0,1", dict(p1, fork_follow=follow, main_registered=mr), env, workers=4))
     return J
 
 
